@@ -23,6 +23,8 @@ type Net struct {
 	FetchFail func(from *Store, c cid.Cid) bool
 	Fetches   int
 	Failed    int
+	// Mutate, when set, may alter the bytes a store receives from a peer (Byzantine provider).
+	Mutate func(to *Store, c cid.Cid, data []byte) []byte
 }
 
 type Store struct {
@@ -86,8 +88,15 @@ func (s *Store) Get(key []byte, dataType ipfs.DataType) ([]byte, error) {
 					s.Net.Failed++
 					return nil, errors.New("simipfs: injected fetch failure")
 				}
-				s.values[c] = append([]byte{}, v...)
-				return append([]byte{}, v...), nil
+				got := append([]byte{}, v...)
+				if s.Net.Mutate != nil {
+					got = s.Net.Mutate(s, c, got)
+					// (content addressing is not re-checked here: kubo would; the property under test is what the
+					// importer does with the bytes it is given)
+					return got, nil
+				}
+				s.values[c] = got
+				return append([]byte{}, got...), nil
 			}
 		}
 	}
